@@ -14,6 +14,7 @@ struct C03Plan
   int spurious;
   int nops;
   C03Op ops[12];
+  int ctrl_in_loop;  // 1: start/stop are issued from the body of a second AsyncLoop
 };
 enum {
   C03_BODY_ENTER = 1,
@@ -35,5 +36,7 @@ void c03_ev(int code);
 void c03_body_enter();
 void c03_body_exit();
 void c03_expect_progress();
+int c03_ctrl_next();          // next script position for the controlling loop (-1: script finished)
+void c03_ctrl_wait_done();    // thread 0 waits until the controlling loop has run the whole script
 void c03_run();
 }
